@@ -60,6 +60,9 @@ func genC16(t *rapid.T) caseC16 {
 	sb.WriteString(pick(t, "base", c16Bases))
 	c.Denom = sb.String()
 	c.Amount = pick(t, "amount", c16Amounts)
+	if kit.Chance(t, "amount/spelled", 25) {
+		c.Amount = kit.NumberSpelling(t, "amount/spelling")
+	}
 	return c
 }
 
